@@ -720,7 +720,7 @@ func (s *v4Server) reserveLease(mac net.HardwareAddr) (l *dhcpsvc.Lease, err err
 			return nil, nil
 		}
 
-		copy(s.leases[i].HWAddr, mac)
+		s.leases[i].HWAddr = slices.Clone(mac)
 
 		return s.leases[i], nil
 	}
